@@ -501,10 +501,11 @@ class C13Purity(Oracle):
         env = ctx.env
         # the environment's own current state is deliberately a DIFFERENT reachable state
         par = ctx.parent.get(key)
+        first = self.states[next(iter(self.states))]
         if side == "above" and par is not None:
-            c = self.states[par[0]]
+            c = self.states.get(par[0], first)
         else:
-            c = self.states[next(iter(self.states))]
+            c = first
         env.current_state = c
         self._c = c
         self._c_bytes = c.tensor.tobytes()
